@@ -28,6 +28,12 @@ CORPUS = {
         "cfg m=2 c=1 | T0: spawn 1; lock 0; lock 1; cwr 0 1; unlock 0; unlock 1; join 1 | T1: lock 0; lock 1; crd 0; unlock 1; unlock 0",
     ],
     "C09": [
+        # every sender is dropped while messages are still queued: try_recv / recv must still deliver them, in order
+        "cfg q=1 | T0: send 0 1; send 0 2; droptx 0; tryrecv 0; tryrecv 0; tryrecv 0; droprx 0",
+        "cfg q=1 | T0: spawn 1; tryrecv 0; tryrecv 0; join 1; tryrecv 0; droprx 0 | T1: send 0 1; send 0 2; droptx 0",
+        "cfg q=1 | T0: spawn 1; recv 0; join 1; tryrecv 0; droprx 0 | T1: send 0 1; send 0 2; droptx 0",
+        "cfg q=1 | T0: send 0 1; droptx 0; recv 0; droprx 0",
+        "cfg q=1 c=1 | T0: spawn 1; join 1; tryrecv 0; crd 0; droprx 0 | T1: cwr 0 5; send 0 1; droptx 0",
         # a message sent while another is still queued must carry its own sender's clock
         "cfg q=1 c=1 | T0: spawn 1; recv 0; recv 0; crd 0; join 1; droprx 0 | T1: send 0 1; cwr 0 5; send 0 2",
         "cfg q=1 c=2 | T0: spawn 1; spawn 2; recv 0; recv 0; crd 0; crd 1; join 1; join 2; droprx 0 | T1: cwr 0 5; send 0 1 | T2: cwr 1 6; send 0 2",
